@@ -243,10 +243,21 @@ def main():
             for d in st["disagreements"][:50]:
                 corr_bad.append(dict(d, stream=sname))
 
+        # 2b. char-class laws assumed by the text-level theorems, evaluated on Rust's own tables
+        law_ties = []
+        law_stats = {}
+        if pid in props.LAWS:
+            laws = t2nlib.char_laws()
+            for name in props.LAWS[pid]:
+                law_stats[name] = laws.get(name, False)
+                if not laws.get(name, False):
+                    law_ties.append({"request": "<char-class law %s on the table dumped from Rust std>" % name,
+                                     "impl": "law does not hold (or could not be evaluated)", "model": "hypothesis of the text-level theorems"})
+
         # 3. oracle step
         failures = []
         oracle_stats = {}
-        oracle_ties = []
+        oracle_ties = list(law_ties)
         for oname in cfg["oracles"]:
             res = props.run_oracle(ctx, oname, focus=corr_bad)
             oracle_stats[oname] = {k: v for k, v in res.items() if k != "failures"}
@@ -304,6 +315,7 @@ def main():
                 "trusted_base": cfg.get("trusted_base", props.TRUSTED_BASE),
                 "theorems": proof["theorems"],
                 "traces_validated_against_impl": corr_total,
+                "char_class_laws_on_rust_tables": law_stats,
                 "evaluations": evaluations,
                 "distinct_nontrivial": sum(v["distinct_answers"] for v in stream_stats.values()) +
                                        sum(v.get("distinct_nontrivial", 0) for v in oracle_stats.values()),
